@@ -45,6 +45,22 @@ static void enumerateAll(const std::function<void(const Spec &)> &f) {
       Spec r = t;  // rejected parameters
       r.devs.push_back({F_orderingWidth, 7.0});
       if (i % 4 == 1) emit(r, false);
+      // every single deviation of the global-placement parameter menu (blendings, net and cost models, reopt sizes, ...)
+      // and of the detailed/legalization menus, on the stage they concern
+      if (i % 3 == 1) {
+        for (auto &pa : gpParamMenu(0)) {
+          Spec d = t;
+          d.devs.push_back({pa.field, pa.value});
+          d.aux = 1; d.aux2 = 1;
+          f(d);
+        }
+        for (auto &pa : detailedParamMenu()) {
+          Spec d = t;
+          d.devs.push_back({pa.field, pa.value});
+          d.aux = 3; d.aux2 = 1;
+          f(d);
+        }
+      }
     });
   }
   // tiny-circuit alphabet with every fixed-cell deviation (legalize / detailed only make sense here, but all stages are run)
@@ -156,7 +172,7 @@ int main(int argc, char **argv) {
   c.rule =
       "global-placement alphabet (1/12, thorough 1/3 of it; fixed cells: terminals with nets, obstruction inside / outside, non-obstruction block) and tiny-circuit alphabet with every "
       "fixed-cell deviation (20-shape menu before/after the movable cells, a movable cell made fixed) x every stage sequence over {placeGlobal, legalize, placeDetailed} of length "
-      "<= 2 (thorough 3) x {no callback, observing callback} + accepted and rejected parameter sets + callback throwing at every index of single-stage runs; oracle: every public "
+      "<= 2 (thorough 3) x {no callback, observing callback} + accepted and rejected parameter sets + every single deviation of the 68-entry global-placement parameter menu and of the detailed-placement menu on a third of the picked circuits + callback throwing at every index of single-stage runs; oracle: every public "
       "getter snapshotted before each call and compared after return or catch and inside every callback: sizes, flags, polarities, nets, offsets, weights (bitwise), rows, and "
       "x/y/orientation of fixed cells; all orientations after placeGlobal; non-trivial = a fixed cell is present and a cell moved";
   c.bounds = gThorough ? "sequences <= 3" : "sequences <= 2";
